@@ -97,7 +97,8 @@ func buildTagOk(ctx *build.Context, s string) (r bool) {
 	case matchTag(ctx, s):
 		r = true
 	case len(s) > 4 && s[:4] == "go1.":
-		if n, err := strconv.Atoi(s[4:]); err != nil {
+		// The release tags are go1.1, go1.2, ... up to the current version.
+		if n, err := strconv.Atoi(s[4:]); err != nil || n < 1 || strconv.Itoa(n) != s[4:] {
 			r = false
 		} else {
 			r = goMinorVersion(ctx) >= n
